@@ -549,7 +549,8 @@ class ExcelCompiler:
             if isinstance(cell, _CellRange) or cell.formula:
                 cell.value = None
 
-        for cell in self.cell_map.values():
+        # evaluating can add nodes (ie: the range of an intersection)
+        for cell in tuple(self.cell_map.values()):
             self.evaluate(cell.address.address)
 
     def trim_graph(self, input_addrs, output_addrs):
